@@ -138,6 +138,13 @@ func CtxWithoutCancel(parent context.Context) context.Context {
 
 func CtxCause(c context.Context) error { return c.Err() }
 
+// CtxWithCancelCause: the cause is not tracked separately (Err reports
+// context.Canceled as the real one does; Cause is modelled as Err).
+func CtxWithCancelCause(parent context.Context) (context.Context, context.CancelCauseFunc) {
+	c := newChild(parent)
+	return c, func(cause error) { c.cancel(context.Canceled) }
+}
+
 func CtxAfterFunc(c context.Context, f func()) func() bool {
 	stopped := make(chan struct{})
 	var once sync.Once
